@@ -77,8 +77,39 @@ _TC = _cls_methods(THRESHOLD_COUNTER, 'boltons.cacheutils', [
 ])
 
 
+# boltons.dictutils.OneToOne(dict).  The object IS its forward dict (spec field `fwd`, reached in the code as
+# `self` / `dict.<m>(self, ...)`); `self.inv` is an object of the same class that IS the inverse dict and whose
+# own `.inv` is `self`: one record, two fields, `St.swap` = the view from the other side (the convention of
+# C17/Model.lean).  `__init__` / `unique` / `copy` (`*a, **kw`, `self.__class__(...)`, marker objects) are not
+# translated.  `_MISSING` is the "argument omitted" marker of `pop`.
+ONE_TO_ONE = {
+    'name': 'OneToOne', 'lean_name': 'OneToOne', 'tparams': ['κ'], 'deceq': ['κ'],
+    'state': {'fwd': 'Dict κ κ', 'inv': 'Dict κ κ'},
+    'dict_base': 'fwd', 'peer': {'attr': 'inv', 'swap': {'fwd': 'inv', 'inv': 'fwd'}},
+    'sentinels': ['_MISSING'],
+}
+_OTO = _cls_methods(ONE_TO_ONE, 'boltons.dictutils', [
+    {'py': '__delitem__', 'name': 'delitem', 'params': {'key': 'κ'}, 'result': 'None',
+     'tie_theorem': 'C17.src_oto_delitem_eq_model'},
+    {'py': '__setitem__', 'name': 'setitem', 'params': {'key': 'κ', 'val': 'κ'}, 'result': 'None',
+     'tie_theorem': 'C17.src_oto_setitem_eq_model'},
+    {'py': 'clear', 'name': 'clear', 'params': {}, 'result': 'None',
+     'tie_theorem': 'C17.src_oto_clear_eq_model'},
+    {'py': 'pop', 'name': 'pop', 'params': {'key': 'κ', 'default': 'Option κ'}, 'result': 'κ',
+     'tie_theorem': 'C17.src_oto_pop_eq_model'},
+    {'py': 'popitem', 'name': 'popitem', 'params': {}, 'result': 'κ × κ',
+     'tie_theorem': 'C17.src_oto_popitem_eq_model'},
+    {'py': 'setdefault', 'name': 'setdefault', 'params': {'key': 'κ', 'default': 'κ'}, 'result': 'κ',
+     'tie_theorem': 'C17.src_oto_setdefault_eq_model'},
+    {'py': 'update', 'name': 'update_pairs', 'params': {'dict_or_iterable': 'List (κ × κ)'},
+     'kwargs': {'kw': 'Dict κ κ'}, 'result': 'None', 'tie_theorem': 'C17.src_oto_update_pairs_eq_model'},
+    {'py': 'update', 'name': 'update_dict', 'params': {'dict_or_iterable': 'Dict κ κ'},
+     'kwargs': {'kw': 'Dict κ κ'}, 'result': 'None', 'tie_theorem': 'C17.src_oto_update_dict_eq_model'},
+])
+
 SPECS = {
     'C20': _TC,
+    'C17': _OTO,
     'C09': [
         {
             'module': 'boltons.iterutils', 'qualname': 'chunk_ranges', 'lean_name': 'chunk_ranges',
